@@ -117,6 +117,27 @@ def run(chk, tier):
             bad = [x for x in pred if x and x.startswith(("context::", "gc_ptr::", "metrics::", "arena::"))]
             chk.inst("handles-touch-only-their-slot-table", "%s[%s]" % (dn, c), not bad,
                      detail="%s reaches collector code: %s" % (dn, bad[:3]))
+        # per-arena state is *built* only by its constructor: a Context / Metrics value assembled anywhere else (a
+        # "child arena", a constructor taking an existing handle) is a way to share collector state between arenas
+        sites = {"context::Context": [], "metrics::Metrics": [], "metrics::MetricsInner": []}
+        for d_raw, key in prog.seed.items():
+            for bb in prog.bodies[key]["blocks"]:
+                for st_ in bb["s"]:
+                    if st_["k"] == "assign" and st_["r"]["k"] == "agg" and st_["r"]["ak"].get("def") in sites:
+                        sites[st_["r"]["ak"]["def"]].append(prog.fn_of_closure(norm(d_raw)))
+        allowed = {"context::Context": {"context::Context::new"},
+                   "metrics::Metrics": {"metrics::Metrics::new", "<metrics::Metrics as core::clone::Clone>::clone"},
+                   "metrics::MetricsInner": {"metrics::Metrics::new", "<metrics::MetricsInner as core::default::Default>::default"}}
+        for adt_, where in sites.items():
+            extra = sorted(set(where) - allowed[adt_])
+            chk.inst("per-arena-state-built-only-by-its-constructor", "%s[%s]" % (adt_, c), not extra,
+                     detail="%s is assembled in %s: collector state can be created around (or shared with) existing state "
+                            "of another arena" % (adt_, extra), sample={"type": adt_, "sites": sorted(set(where))})
+        # Metrics handles are cloned only to store an arena's own handle in its own context
+        clones = sorted({prog.fn_of_closure(e.caller) for e in prog.callers_of("<metrics::Metrics as core::clone::Clone>::clone")})
+        chk.inst("metrics-handle-cloned-only-in-context-new", "metrics::Metrics::clone[%s]" % c,
+                 set(clones) <= {"context::Context::new"},
+                 detail="a Metrics handle is cloned in %s: two contexts could end up sharing one metrics cell" % clones)
         # the one cross-arena channel: a handle presented to another arena's set must be refused
         rules_roots.fetch_rules(chk, prog, c, rule="foreign-handle-refused")
         rules_roots.contains_identity(chk, prog, c, rule="foreign-handle-identity")
